@@ -1227,3 +1227,281 @@ Proof.
   split; [repeat constructor; simpl; intuition|].
   vm_compute. discriminate.
 Qed.
+
+(* ----- the lru_cache on a LINEAR hierarchy: every query is answered as on a fresh cache ----- *)
+Lemma parts_ext a b : (forall p, get_part p a = get_part p b) -> a = b.
+Proof.
+  intros H. destruct a as [a1 a2 a3 a4], b as [b1 b2 b3 b4].
+  pose proof (H PAbove) as H1. pose proof (H PInline) as H2. pose proof (H PBelow) as H3. pose proof (H PCls) as H4.
+  simpl in *. now subst.
+Qed.
+
+Definition pure_result (scan : string -> option parts) (mro : list string) : parts :=
+  result_of (acc_pure_gen (map scan mro) None).
+
+Lemma cache_get_set_same st k v : cache_get (cache_set st k v) k = Some v.
+Proof.
+  induction st as [|[n w] r IH]; simpl.
+  - now rewrite String.eqb_refl.
+  - destruct (String.eqb n k) eqn:E; simpl; rewrite E; [reflexivity | exact IH].
+Qed.
+
+Fixpoint strs_eqb' (a b : list string) : bool :=
+  match a, b with
+  | [], [] => true
+  | x :: r, y :: s => String.eqb x y && strs_eqb' r s
+  | _, _ => false
+  end.
+Lemma strs_eqb'_eq a : forall b, strs_eqb' a b = true -> a = b.
+Proof.
+  induction a as [|x r IH]; intros [|y s] H; simpl in H; try discriminate; [reflexivity|].
+  apply andb_true_iff in H as [H1 H2]. apply String.eqb_eq in H1. subst. f_equal. now apply IH.
+Qed.
+
+(* q is a suffix of chain: the MRO of a class of a single-inheritance chain *)
+Fixpoint suffixb (q chain : list string) : bool :=
+  strs_eqb' q chain || match chain with [] => false | _ :: r => suffixb q r end.
+
+Lemma suffixb_spec q chain : suffixb q chain = true -> exists pre, chain = (pre ++ q)%list.
+Proof.
+  induction chain as [|c r IH]; simpl; intros H.
+  - rewrite orb_false_r in H. apply strs_eqb'_eq in H. subst. now exists [].
+  - apply orb_true_iff in H as [H|H].
+    + apply strs_eqb'_eq in H. subst. now exists [].
+    + destruct (IH H) as [pre ->]. now exists (c :: pre).
+Qed.
+
+Section Linear.
+  Variable scan : string -> option parts.
+
+  (* the value a class contributes to a query: the cached object if there is one, else a fresh scan *)
+  Definition val (st : cache) (k : string) : option parts :=
+    match cache_get st k with Some v => v | None => scan k end.
+
+  (* what the loop does, in terms of those values *)
+  Lemma acc_loop_vals mro : forall created st,
+    NoDup mro ->
+    match created with Some (k0, c) => ~ In k0 mro /\ cache_get st k0 = Some (Some c) | None => True end ->
+    let res := acc_loop ACC_PARTS scan mro created st in
+    option_map snd (fst res) = acc_pure_gen (map (val st) mro) (option_map snd created)
+    /\ (forall k, ~ In k mro -> match created with Some (k0, _) => k <> k0 | None => True end ->
+                  cache_get (snd res) k = cache_get st k)
+    /\ (forall k, In k mro -> match fst res with Some (k0, _) => k <> k0 | None => True end ->
+                  cache_get (snd res) k = Some (val st k))
+    /\ match fst res with
+       | Some (k0, c) => cache_get (snd res) k0 = Some (Some c)
+                         /\ (match created with
+                             | Some (k1, _) => k0 = k1
+                             | None => exists q1 q2, mro = (q1 ++ k0 :: q2)%list
+                                                     /\ (forall x, In x q1 -> val st x = None) /\ val st k0 <> None
+                             end)
+       | None => created = None
+       end.
+  Proof.
+    unfold acc_pure_gen.
+    induction mro as [|k r IH]; intros created st Hnd Hc.
+    - cbn [acc_loop map acc_pure fst snd]. cbn zeta.
+      split; [reflexivity|]. split; [intros; reflexivity|]. split; [intros k []|].
+      destruct created as [[k0 c]|]; [split; [apply Hc | reflexivity] | reflexivity].
+    - inversion Hnd as [|? ? Hk Hr]; subst.
+      cbn [acc_loop map acc_pure].
+      (* the fetch *)
+      remember (val st k) as v eqn:Ev0.
+      set (st1 := match cache_get st k with Some _ => st | None => cache_set st k (scan k) end).
+      assert (Hf : fetch scan st k = (v, st1)).
+      { unfold fetch, st1. rewrite Ev0. unfold val. destruct (cache_get st k); reflexivity. }
+      rewrite Hf.
+      assert (G1 : forall k', k' <> k -> cache_get st1 k' = cache_get st k').
+      { intros k' Hne. unfold st1. destruct (cache_get st k); [reflexivity|]. now apply cache_get_set_other. }
+      assert (G2 : cache_get st1 k = Some v).
+      { unfold st1. rewrite Ev0. unfold val. destruct (cache_get st k) eqn:E; [exact E | apply cache_get_set_same]. }
+      assert (V1 : forall k', k' <> k -> val st1 k' = val st k').
+      { intros k' Hne. unfold val. now rewrite G1. }
+      assert (Vr : map (val st1) r = map (val st) r).
+      { apply map_ext_in. intros k' Hk'. apply V1. intros ->. contradiction. }
+      destruct v as [d|].
+      + destruct created as [[k0 c]|].
+        * (* merge into the created object, written back under k0 *)
+          destruct Hc as [Hc1 Hc2].
+          assert (Hk0 : k0 <> k) by (intros ->; apply Hc1; now left).
+          set (c' := merge ACC_PARTS c d).
+          set (st2 := cache_set st1 k0 (Some c')).
+          assert (V2 : forall k', k' <> k -> k' <> k0 -> val st2 k' = val st k').
+          { intros k' N1 N2. unfold val, st2. rewrite cache_get_set_other by exact N2. now rewrite G1. }
+          assert (Vr2 : map (val st2) r = map (val st) r).
+          { apply map_ext_in. intros k' Hk'. apply V2; intros ->; [contradiction | apply Hc1; now right]. }
+          destruct (IH (Some (k0, c')) st2 Hr) as [I1 [I2 [I3 I4]]].
+          { split; [intros H; apply Hc1; now right | apply cache_get_set_same]. }
+          cbn zeta in I1, I2, I3, I4. rewrite Vr2 in I1.
+          destruct (acc_loop ACC_PARTS scan r (Some (k0, c')) st2) as [res st'] eqn:ER.
+          cbn [fst snd option_map] in *. cbn zeta. split; [exact I1|]. split; [|split].
+          -- intros k' N1 N2. rewrite I2; [| intros H; apply N1; now right | exact N2].
+             unfold st2. rewrite cache_get_set_other by exact N2. apply G1. intros ->. apply N1. now left.
+          -- intros k' [<-|Hk'] N.
+             ++ destruct res as [[k1 c1]|]; [|discriminate I4].
+                destruct I4 as [_ ->]. rewrite I2; [| exact Hk | congruence].
+                unfold st2. rewrite cache_get_set_other by congruence. rewrite G2. now rewrite <- Ev0.
+             ++ rewrite I3 by assumption. f_equal. apply V2; [intros ->; contradiction|].
+                intros ->. apply Hc1. now right.
+          -- destruct res as [[k1 c1]|]; [|discriminate I4].
+             destruct I4 as [I4 ->]. split; [exact I4 | reflexivity].
+        * (* first class that defines the field *)
+          destruct (IH (Some (k, d)) st1 Hr) as [I1 [I2 [I3 I4]]].
+          { split; [exact Hk | exact G2]. }
+          cbn zeta in I1, I2, I3, I4. rewrite Vr in I1.
+          destruct (acc_loop ACC_PARTS scan r (Some (k, d)) st1) as [res st'] eqn:ER.
+          cbn [fst snd option_map] in *. cbn zeta. split; [exact I1|]. split; [|split].
+          -- intros k' N1 _. rewrite I2; [| intros H; apply N1; now right | intros ->; apply N1; now left].
+             apply G1. intros ->. apply N1. now left.
+          -- intros k' [<-|Hk'] N.
+             ++ destruct res as [[k1 c1]|]; [|discriminate I4].
+                destruct I4 as [_ ->]. congruence.
+             ++ rewrite I3 by assumption. f_equal. apply V1. intros ->. contradiction.
+          -- destruct res as [[k1 c1]|]; [|discriminate I4].
+             destruct I4 as [I4 ->]. split; [exact I4|]. exists [], r.
+             split; [reflexivity|]. split; [intros x []|]. rewrite <- Ev0. discriminate.
+      + (* the class does not define the field *)
+        destruct (IH created st1 Hr) as [I1 [I2 [I3 I4]]].
+        { destruct created as [[k0 c]|]; [|exact I]. destruct Hc as [Hc1 Hc2].
+          split; [intros H; apply Hc1; now right|]. rewrite G1; [exact Hc2 | intros ->; apply Hc1; now left]. }
+        cbn zeta in I1, I2, I3, I4. rewrite Vr in I1.
+        destruct (acc_loop ACC_PARTS scan r created st1) as [res st'] eqn:ER.
+        cbn [fst snd option_map] in *. cbn zeta. split; [exact I1|]. split; [|split].
+        * intros k' N1 N2. rewrite I2; [| intros H; apply N1; now right | exact N2].
+          apply G1. intros ->. apply N1. now left.
+        * intros k' [<-|Hk'] N.
+          -- rewrite I2; [rewrite G2; now rewrite <- Ev0 | exact Hk |].
+             destruct created as [[k0 c]|]; [|exact I]. intros ->. apply (proj1 Hc). now left.
+          -- rewrite I3 by assumption. f_equal. apply V1. intros ->. contradiction.
+        * destruct res as [[k1 c1]|]; [|exact I4].
+          destruct I4 as [I4 I5]. split; [exact I4|].
+          destruct created as [[k0 c]|]; [exact I5|]. destruct I5 as [q1 [q2 [E [I5 I6]]]].
+          assert (Hk1 : In k1 r) by (rewrite E; apply in_or_app; right; now left).
+          exists (k :: q1), q2. split; [simpl; now rewrite E|]. split.
+          -- intros x [<-|Hx]; [now rewrite <- Ev0|]. rewrite <- V1; [now apply I5|].
+             intros ->. apply Hk. rewrite E. apply in_or_app. now left.
+          -- rewrite <- V1; [exact I6 | intros ->; contradiction].
+  Qed.
+End Linear.
+
+Lemma nodup_app_r {A} (a b : list A) : NoDup (a ++ b) -> NoDup b.
+Proof. induction a as [|x r IH]; simpl; intros H; [exact H|]. inversion H; subst. now apply IH. Qed.
+
+Section LinearChain.
+  Variable scan : string -> option parts.
+  Variable chain : list string.
+  Hypothesis Hnd : NoDup chain.
+
+  (* the part of the chain from class k upwards *)
+  Fixpoint from (k : string) (l : list string) : list string :=
+    match l with [] => [] | x :: r => if String.eqb x k then l else from k r end.
+
+  Lemma from_suffix k : forall pre S l, l = (pre ++ k :: S)%list -> ~ In k pre -> from k l = k :: S.
+  Proof.
+    induction pre as [|x r IH]; intros S l -> Hn; simpl.
+    - now rewrite String.eqb_refl.
+    - destruct (String.eqb x k) eqn:E.
+      + apply String.eqb_eq in E. subst. exfalso. apply Hn. now left.
+      + apply IH; [reflexivity | intros H; apply Hn; now right].
+  Qed.
+
+  (* every cached object is either the class's own scan result or the accumulation from that class upwards *)
+  Definition good (st : cache) : Prop :=
+    forall k v, cache_get st k = Some v ->
+      v = scan k \/ (scan k <> None /\ v = Some (pure_result scan (from k chain))).
+
+  Lemma val_none st k : good st -> val scan st k = None -> scan k = None.
+  Proof.
+    unfold val. intros Hg H. destruct (cache_get st k) as [v|] eqn:E; [|exact H].
+    subst v. destruct (Hg k None E) as [H1|[_ H1]]; [now symmetry | discriminate H1].
+  Qed.
+
+  Lemma val_some st k : good st -> val scan st k <> None -> scan k <> None.
+  Proof.
+    unfold val. intros Hg H. destruct (cache_get st k) as [v|] eqn:E; [|exact H].
+    destruct (Hg k v E) as [H1|[H1 _]]; [now rewrite <- H1 | exact H1].
+  Qed.
+
+  Lemma nearest_vals st p : good st -> forall S pre, chain = (pre ++ S)%list ->
+    nearest_part p (map (val scan st) S) = nearest_part p (map scan S).
+  Proof.
+    intros Hg. induction S as [|k S' IH]; intros pre E; [reflexivity|].
+    assert (IH' : nearest_part p (map (val scan st) S') = nearest_part p (map scan S')).
+    { apply (IH (pre ++ [k])%list). now rewrite <- app_assoc. }
+    cbn [map]. unfold val at 1. destruct (cache_get st k) as [v|] eqn:Ec.
+    - destruct (Hg k v Ec) as [->|[Hs ->]].
+      + destruct (scan k); cbn [nearest_part]; now rewrite IH'.
+      + assert (Hfrom : from k chain = k :: S').
+        { apply (from_suffix k pre S' chain E). intros Hin.
+          rewrite E in Hnd. apply NoDup_remove_2 in Hnd. apply Hnd. apply in_or_app. now left. }
+        rewrite Hfrom. cbn [nearest_part]. unfold pure_result. rewrite nearest_class, IH'.
+        cbn [map]. destruct (scan k) as [d0|]; [|congruence]. cbn [nearest_part].
+        destruct (str_nonempty (get_part p d0)) eqn:E0.
+        * now rewrite E0.
+        * destruct (str_nonempty (nearest_part p (map scan S'))); reflexivity.
+    - destruct (scan k); cbn [nearest_part]; now rewrite IH'.
+  Qed.
+
+  Lemma acc_pure_skip_none q1 : forall l cr, (forall x, In x q1 -> scan x = None) ->
+    acc_pure_gen (map scan (q1 ++ l)) cr = acc_pure_gen (map scan l) cr.
+  Proof.
+    unfold acc_pure_gen. induction q1 as [|x r IH]; intros l cr H; [reflexivity|].
+    cbn [app map acc_pure]. rewrite (H x (or_introl eq_refl)). apply IH. intros y Hy. apply H. now right.
+  Qed.
+
+  (* one query on a good cache: the fresh answer, and the cache stays good *)
+  Lemma query_good q st : suffixb q chain = true -> good st ->
+    fst (get_doc_gen scan q st) = pure_result scan q /\ good (snd (get_doc_gen scan q st)).
+  Proof.
+    intros Hq Hg. destruct (suffixb_spec q chain Hq) as [pre E].
+    assert (Hndq : NoDup q) by (rewrite E in Hnd; now apply nodup_app_r in Hnd).
+    destruct (acc_loop_vals scan q None st Hndq I) as [I1 [I2 [I3 I4]]]. cbn zeta in *.
+    unfold get_doc_gen, get_doc.
+    destruct (acc_loop ACC_PARTS scan q None st) as [res st'] eqn:ER. cbn [fst snd option_map] in *.
+    assert (Hres : result_of (option_map snd res) = pure_result scan q).
+    { rewrite I1. apply parts_ext. intros p. unfold pure_result. rewrite !nearest_class.
+      now apply (nearest_vals st p Hg q pre). }
+    split.
+    - rewrite <- Hres. destruct res as [[k0 c]|]; reflexivity.
+    - assert (Hother : forall k v, (match res with Some (k0, _) => k <> k0 | None => True end) ->
+                                   cache_get st' k = Some v ->
+                                   v = scan k \/ (scan k <> None /\ v = Some (pure_result scan (from k chain)))).
+      { intros k v Hne Hc. destruct (in_dec string_dec k q) as [Hin|Hnin].
+        - rewrite (I3 k Hin Hne) in Hc. injection Hc as <-. unfold val.
+          destruct (cache_get st k) as [v'|] eqn:E'; [now apply (Hg k v') | now left].
+        - rewrite (I2 k Hnin I) in Hc. now apply (Hg k v). }
+      destruct res as [[k0 c]|]; cbn [fst snd] in *.
+      + destruct I4 as [I4 [q1 [q2 [Eq [Hq1 Hk0]]]]].
+        intros k v Hc. destruct (string_dec k k0) as [->|Hne]; [|now apply Hother].
+        rewrite I4 in Hc. injection Hc as <-. right. split; [now apply (val_some st)|].
+        f_equal. simpl in Hres. rewrite Hres. unfold pure_result. rewrite Eq.
+        rewrite acc_pure_skip_none by (intros x Hx; apply (val_none st x Hg); now apply Hq1).
+        f_equal. f_equal. f_equal. symmetry. apply (from_suffix k0 (pre ++ q1) q2).
+        * rewrite E, Eq. now rewrite <- app_assoc.
+        * intros Hin. rewrite E, Eq, app_assoc in Hnd. apply NoDup_remove_2 in Hnd. apply Hnd.
+          apply in_or_app. now left.
+      + intros k v Hc. now apply Hother.
+  Qed.
+
+  (* any history of queries along one single-inheritance chain *)
+  Lemma run_queries_good qs : forall st, good st -> forallb (fun q => suffixb q chain) qs = true ->
+    run_queries_gen scan qs st = map (pure_result scan) qs.
+  Proof.
+    unfold run_queries_gen.
+    induction qs as [|q r IH]; intros st Hg H; [reflexivity|].
+    simpl in H. apply andb_true_iff in H as [Hq Hr].
+    destruct (query_good q st Hq Hg) as [Q1 Q2]. unfold get_doc_gen in Q1, Q2.
+    cbn [run_queries map]. destruct (get_doc ACC_PARTS scan q st) as [d st'].
+    cbn [fst snd] in Q1, Q2. rewrite Q1. f_equal. now apply IH.
+  Qed.
+End LinearChain.
+
+Theorem history_independent_partial scan chain qs :
+  NoDup chain -> forallb (fun q => suffixb q chain) qs = true ->
+  run_queries_gen scan qs [] = map (fun mro => fst (get_doc_gen scan mro [])) qs.
+Proof.
+  intros Hnd H. rewrite (run_queries_good scan chain Hnd qs []); [|intros k v Hc; discriminate Hc | exact H].
+  apply map_ext_in. intros q Hq. symmetry. apply get_doc_fresh.
+  rewrite forallb_forall in H. destruct (suffixb_spec q chain (H q Hq)) as [pre E].
+  rewrite E in Hnd. now apply nodup_app_r in Hnd.
+Qed.
